@@ -35,7 +35,7 @@ PROPERTY = "C20"
 LEVEL = "exploration"
 RULE = (
     "one case = one operation on the conflict list / merge-hash record followed by a reopen and a comparison with the model, or one "
-    "faulted re-execution (fault kind, storage-op index k) of the run's last write followed by a fresh open; a run evaluates 3-9 "
+    "faulted re-execution (fault kind, storage-op index k) of the run's last write followed by a fresh open, or one concurrent execution of two operations by two actors; a run evaluates 3-9 "
     "operations plus up to ~40 fault points; non-trivial run = a list with >= 3 conflicts of >= 2 types was stored and read back and a "
     "resolve selected a proper non-empty subset or a fault fired; distinct = distinct event-log digests of such runs"
 )
@@ -59,6 +59,7 @@ ASSUMPTIONS = [
     "injected errors: TransportError, PermissionDenied, ENOSPC, ConnectionError (NoSuchFile is not injected: for an existing conflicts file it would be a lie that add_conflicts is entitled to believe)",
     "after a crashed or failed write the sweep removes leftover lock directories with the os module (the operator's break-lock), then opens the tree afresh",
     "text / contents conflicts whose path lies below a regular file of the tree are generated too (resolve_enotdir: Conflict.cleanup let NotADirectoryError escape from resolve; repaired in /repo by 646d20b, replay findings/C20-finding-resolve_enotdir.json keeps the signature [C20, known-defect, resolve_enotdir])",
+    "two-actor phase (35% of the runs, instead of the fault sweep): A = resolve(paths) and B = add_conflicts(list) or resolve(other paths) run as two simulated processes (own WorkingTree objects) under the seeded scheduler, switching at storage operations (LockDir contention is real, waits run on the virtual clock); the final list must equal the outcome of the completed operations in some serial order (compared as a multiset: add_conflicts sorts); an operation that ends in a lock error (LockContention from the in-process dirstate lock) counts as either executed or not",
     "runs execute in-process (ISOLATION=thread): each run builds tree, model and Sim from scratch; fault points are enumerated by re-execution from the re-established state, not by forking",
 ]
 STEP_CAP = 400000
@@ -312,8 +313,26 @@ def generate(rng, tier):
             ops.append({"o": "reopen"})
     # entries were renamed in place while generating: the plan needs the initial layout
     plan = {"pool": pool, "entries": _initial_entries(entries, ops), "ops": ops}
+    if rng.random() < 0.35:
+        # two processes on one tree: A resolves while B adds conflicts / resolves others
+        if len(cur) < 2:
+            lst = ok_list(gen_list(rng, sorted(cur_kinds), ids, pool, rng.randint(2, 5), avoid=cur))
+            ops.append({"o": "add", "list": lst})
+            cur = list(dict.fromkeys(cur + [tuple(c) for c in lst]))
+        cpaths = sorted({c[1] for c in cur})
+        a_sel = sorted(rng.sample(cpaths, rng.randint(1, max(1, len(cpaths) // 2)))) if cpaths else ["zz"]
+        a_op = {"o": "resolve", "paths": a_sel, "recursive": False}
+        if rng.random() < 0.7:
+            b_op = {"o": "add", "list": ok_list(gen_list(rng, sorted(cur_kinds), ids, pool, rng.randint(1, 3), avoid=cur))}
+        else:
+            rest = [q for q in cpaths if q not in a_sel] or cpaths or ["zz"]
+            b_op = {"o": "resolve", "paths": sorted(rng.sample(rest, rng.randint(1, min(2, len(rest))))), "recursive": False}
+        plan["duo"] = {"a": a_op, "b": b_op}
+        plan["policy"] = rng.choice(["random", "random", "rr", "pct"])
+        if plan["policy"] == "pct":
+            plan["preempt_at"] = sorted(rng.sample(range(1, 60), rng.randint(1, 4)))
     kinds_ = rng.choice([["err_before"], ["crash"], ["err_before", "crash"], ["err_before", "crash"]])
-    plan["sweep"] = {"kinds": kinds_, "err": rng.choice(ERRS), "max": rng.choice([4, 8, 16])}
+    plan["sweep"] = None if plan.get("duo") else {"kinds": kinds_, "err": rng.choice(ERRS), "max": rng.choice([4, 8, 16])}
     return plan
 
 
@@ -625,8 +644,94 @@ def execute(sim, plan):
     fired = 0
     if last_write is not None and plan.get("sweep") and last_write[0] == len(plan["ops"]) - 1:
         fired = sweep(sim, plan, w, *last_write)
-    sim.nontrivial = bool(stored_big and (proper or fired))
+    raced = False
+    if plan.get("duo"):
+        raced = duo(sim, plan, w)
+    sim.nontrivial = bool(stored_big and (proper or fired or raced))
     gc.collect()
+
+
+LOCK_ERRORS = ("LockContention", "LockFailed", "LockError", "LockBroken", "LockNotHeld", "TokenMismatch", "LockCorrupt")
+
+
+def duo(sim, plan, w):
+    """Two processes (two tree objects, two actors) operate on the conflict list at once,
+    interleaved at the storage operations.  The final list must be the result of the completed
+    operations in SOME serial order."""
+    from breezy import conflicts as _mod_conflicts
+
+    sim.disarm()
+    clean_locks(w.root)
+    start = list(w.conflicts)
+    ops = {"A": plan["duo"]["a"], "B": plan["duo"]["b"]}
+    results = {}
+
+    def actor(name):
+        def run():
+            op = ops[name]
+            try:
+                tree = T.open_tree(w.root, "bzr")
+                if op["o"] == "add":
+                    tree.add_conflicts([make_conflict(c) for c in op["list"]])
+                else:
+                    _mod_conflicts.resolve(tree, op["paths"], ignore_misses=True, recursive=op["recursive"], action="done")
+                results[name] = "ok"
+            except Exception as e:  # noqa: BLE001 - judged below
+                results[name] = type(e).__name__
+                results[name + ":exc"] = repr(e)[:300]
+
+        return run
+
+    n0 = sim.switches
+    for name in ("A", "B"):
+        sim.spawn(name + str(len(sim.actors)), actor(name))
+    sim.run_actors()
+    clean_locks(w.root)
+    sim.event("duo", results.get("A"), results.get("B"))
+    for name in ("A", "B"):
+        r = results.get(name)
+        if r != "ok" and r not in LOCK_ERRORS:
+            sim.fail("duo_op_raised", ["C20", "duo_op_raised", ops[name]["o"], str(r)], "actor %s: %s raised %s" % (name, json.dumps(ops[name], ensure_ascii=False), results.get(name + ":exc")))
+    # acceptable outcomes: every serial order of every set of operations that may have happened
+    # (an operation that gave up on a lock may or may not count as not executed: it did nothing)
+    def outcome(order):
+        w.conflicts = list(start)
+        for name in order:
+            w.model(ops[name])
+        return sorted(w.conflicts, key=repr)
+
+    done = [n for n in ("A", "B") if results.get(n) == "ok"]
+    maybe = [n for n in ("A", "B") if results.get(n) != "ok"]
+    orders = set()
+    import itertools
+
+    for k in range(len(maybe) + 1):
+        for extra in itertools.combinations(maybe, k):
+            for order in itertools.permutations(done + list(extra)):
+                orders.add(order)
+    accepted = {repr(outcome(o)): o for o in sorted(orders)}
+    tree = w.reopen()
+    try:
+        got = sorted(read_back(tree), key=repr)
+    except BaseException as e:  # noqa: B036
+        if isinstance(e, (SimCrash, KeyboardInterrupt, SystemExit)):
+            raise
+        sim.fail("duo_read_raised", ["C20", "duo_read_raised", type(e).__name__], "conflicts() raised %r after two concurrent operations" % (e,))
+    sim.event("duo-result", _h(got), len(got))
+    sim.notes["evaluations"] = sim.notes.get("evaluations", 0) + 1
+    sim.probe("duo_" + "+".join(sorted("%s" % results.get(n) for n in ("A", "B"))))
+    if repr(got) not in accepted:
+        serial = outcome(("A", "B"))
+        lost = [c for c in serial if c not in got]
+        extra = [c for c in got if c not in serial]
+        sim.fail(
+            "not_serializable",
+            ["C20", "not_serializable", ops["A"]["o"] + "|" + ops["B"]["o"]],
+            "A=%s (%s) and B=%s (%s) ran concurrently on %d stored conflicts; the final list (%d) equals no serial order; against A;B: lost %r, unexpected %r"
+            % (json.dumps(ops["A"], ensure_ascii=False), results.get("A"), json.dumps(ops["B"], ensure_ascii=False), results.get("B"), len(start), len(got), lost[:4], extra[:4]),
+        )
+    w.conflicts = [tuple(c) for c in got]
+    return sim.switches > n0
 
 
 def fault_site(sim, n0):
